@@ -1,6 +1,7 @@
 (* Proofs for C29 (Model/ClientRetry.v). *)
 From Coq Require Import List ZArith Bool Arith Lia.
 From TD Require Import Model.ClientRetry.
+From TD Require Model.Rpc.
 Import ListNotations.
 
 Definition ackphase (p : phase) : Prop :=
@@ -13,16 +14,27 @@ Definition gen_of (p : phase) : option nat :=
 Definition is_acked_phase (p : phase) : bool :=
   match p with OnConn _ Acked => true | _ => false end.
 
+Definition sends_bound (st : state) : nat :=
+  match ph st with
+  | Idle => cur_gen st
+  | OnConn g Unsent | OnConn g SentLost => g
+  | OnConn g _ | Waiting g => S g
+  | Returned _ => S (cur_gen st)
+  end.
+
 Record Inv (st : state) : Prop := {
   inv_dead_le : forall g, is_dead st g = true -> g <= cur_gen st;
-  inv_closed_dead : closed st = true -> forall g, g <= cur_gen st -> is_dead st g = true;
+  inv_old_dead : forall g, g < cur_gen st -> is_dead st g = true;
+  inv_closed_cur : closed st = true -> paused st = false -> is_dead st (cur_gen st) = true;
+  inv_paused_alive : paused st = true -> is_dead st (cur_gen st) = false;
   inv_gen : forall g, gen_of (ph st) = Some g -> g <= cur_gen st;
   inv_acked : acked st = true -> nsends st = sends_at_ack st /\ ackphase (ph st);
   inv_ackedphase : is_acked_phase (ph st) = true -> acked st = true;
   inv_erracked : ph st = Returned RErrAcked -> acked st = true;
   inv_rclosed : ph st = Returned RClosed -> closed st = true;
   inv_rctx : ph st = Returned RCtx -> cancelled st = true;
-  inv_wait_dead : forall g, ph st = Waiting g -> is_dead st g = true
+  inv_wait_dead : forall g, ph st = Waiting g -> is_dead st g = true;
+  inv_sends : nsends st <= sends_bound st
 }.
 
 Lemma existsb_cons_true g g' d :
@@ -39,87 +51,140 @@ Qed.
 Lemma inv_init : Inv init.
 Proof. constructor; cbn; intros; try discriminate; try lia; auto. Qed.
 
-(* finishing tactic for the invocation's own events: only the phase (and ghosts) change *)
-Ltac fin I1 I2 I3 I4 I4b I5 I6 I7 I8 P :=
-  constructor; cbn; intros;
-  repeat match goal with
-         | H : Some _ = Some _ |- _ => inversion H; subst; clear H
-         end;
-  try discriminate; auto;
-  try (match goal with H : acked _ = true |- _ => destruct (I4 H) as [? F]; try rewrite P in F; cbn in F; try contradiction; auto end);
-  try (apply I3; try rewrite P; reflexivity);
-  try (apply I4b; try rewrite P; reflexivity);
-  try (apply I1; assumption); try (apply I2; assumption); try lia;
-  try (match goal with Hw : Waiting _ = Waiting _ |- _ => inversion Hw; subst; assumption end);
-  try (apply I8; try rewrite P; assumption).
+(* the invocation's own events: only the phase and the counters change *)
+Lemma own_step_inv st st' p' ns' ak' sa' :
+  Inv st ->
+  st' = mkSt p' (cur_gen st) (dead st) (closed st) (cancelled st) ns' ak' sa' (paused st) ->
+  (forall g, gen_of p' = Some g -> g <= cur_gen st) ->
+  (ak' = true -> ns' = sa' /\ ackphase p') ->
+  (is_acked_phase p' = true -> ak' = true) ->
+  (p' = Returned RErrAcked -> ak' = true) ->
+  (p' = Returned RClosed -> closed st = true) ->
+  (p' = Returned RCtx -> cancelled st = true) ->
+  (forall g, p' = Waiting g -> is_dead st g = true) ->
+  ns' <= sends_bound (mkSt p' (cur_gen st) (dead st) (closed st) (cancelled st) ns' ak' sa' (paused st)) ->
+  Inv st'.
+Proof.
+  intros I -> H1 H2 H3 H4 H5 H6 H7 H8. destruct I.
+  constructor; cbn; unfold is_dead in *; cbn; auto.
+Qed.
 
 Lemma step_inv st e st' : Inv st -> step st e = Some st' -> Inv st'.
 Proof.
-  intros [I1 I2 I3 I4 I4b I5 I6 I7 I8] H.
-  unfold is_dead in *.
-  destruct e; cbn -[Nat.ltb Nat.leb] in H; unfold is_dead in H.
+  intros I H. pose proof I as [I1 I1b I2 I2b I3 I4 I4b I5 I6 I7 I8 I9].
+  destruct e; cbn -[Nat.ltb Nat.leb] in H.
   - (* ESnapshot *)
     destruct (ph st) eqn:P; try discriminate. inversion H; subst; clear H.
-    fin I1 I2 I3 I4 I4b I5 I6 I7 I8 P.
+    eapply (own_step_inv st _ _ _ _ _ I); [reflexivity|..]; cbn; intros; try discriminate; try congruence.
+    + inversion H; subst; lia.
+    + destruct (I4 H) as [_ F]; try rewrite P in F; cbn in F; contradiction.
+    + unfold sends_bound in I9; try rewrite P in I9; cbn in I9. exact I9.
   - (* ESend *)
     destruct (ph st) as [|g s| |] eqn:P; try discriminate. destruct s; try discriminate.
-    destruct (existsb (Nat.eqb g) (dead st)) eqn:D; try discriminate. inversion H; subst; clear H.
-    fin I1 I2 I3 I4 I4b I5 I6 I7 I8 P.
+    destruct (unusable st g) eqn:D; try discriminate. inversion H; subst; clear H.
+    eapply (own_step_inv st _ _ _ _ _ I); [reflexivity|..]; cbn; intros; try discriminate; try congruence.
+    + inversion H; subst. apply I3; try rewrite P; reflexivity.
+    + destruct (I4 H) as [_ F]; try rewrite P in F; cbn in F; contradiction.
+    + unfold sends_bound in I9; try rewrite P in I9; cbn in I9. lia.
   - (* ESendLost *)
     destruct (ph st) as [|g s| |] eqn:P; try discriminate. destruct s; try discriminate.
-    destruct (existsb (Nat.eqb g) (dead st)) eqn:D; try discriminate. inversion H; subst; clear H.
-    fin I1 I2 I3 I4 I4b I5 I6 I7 I8 P.
+    destruct (unusable st g) eqn:D; try discriminate. inversion H; subst; clear H.
+    eapply (own_step_inv st _ _ _ _ _ I); [reflexivity|..]; cbn; intros; try discriminate; try congruence.
+    + inversion H; subst. apply I3; try rewrite P; reflexivity.
+    + destruct (I4 H) as [_ F]; try rewrite P in F; cbn in F; contradiction.
+    + unfold sends_bound in I9; try rewrite P in I9; cbn in I9. exact I9.
   - (* EAck *)
     destruct (ph st) as [|g s| |] eqn:P; try discriminate. destruct s; try discriminate.
-    destruct (existsb (Nat.eqb g) (dead st)) eqn:D; try discriminate. inversion H; subst; clear H.
-    fin I1 I2 I3 I4 I4b I5 I6 I7 I8 P.
+    destruct (unusable st g) eqn:D; try discriminate. inversion H; subst; clear H.
+    eapply (own_step_inv st _ _ _ _ _ I); [reflexivity|..]; cbn; intros; try discriminate; try congruence; auto.
+    unfold sends_bound in I9; try rewrite P in I9; cbn in I9. exact I9.
   - (* EResult *)
     destruct (ph st) as [|g s| |] eqn:P; try discriminate.
-    destruct s; try discriminate; destruct (existsb (Nat.eqb g) (dead st)) eqn:D; try discriminate; inversion H; subst; clear H;
-      fin I1 I2 I3 I4 I4b I5 I6 I7 I8 P.
+    assert (G : g <= cur_gen st) by (apply I3; try rewrite P; reflexivity).
+    destruct s; try discriminate; destruct (unusable st g) eqn:D; try discriminate; inversion H; subst; clear H;
+      (eapply (own_step_inv st _ _ _ _ _ I); [reflexivity|..]; cbn; intros; try discriminate; try congruence;
+       [ destruct (I4 H) as [E _]; auto | unfold sends_bound in I9; try rewrite P in I9; cbn in I9; lia ]).
   - (* EObserveDead *)
     destruct (ph st) as [|g s| |] eqn:P; try discriminate.
-    destruct (existsb (Nat.eqb g) (dead st)) eqn:D; try discriminate.
-    destruct s; inversion H; subst; clear H; fin I1 I2 I3 I4 I4b I5 I6 I7 I8 P.
+    assert (G : g <= cur_gen st) by (apply I3; try rewrite P; reflexivity).
+    destruct (is_dead st g) eqn:D; try discriminate.
+    destruct s; inversion H; subst; clear H;
+      (eapply (own_step_inv st _ _ _ _ _ I); [reflexivity|..]; cbn; intros; try discriminate; try congruence;
+       try (match goal with Hg : Some _ = Some _ |- _ => inversion Hg; subst; assumption end);
+       try (match goal with Hw : Waiting _ = Waiting _ |- _ => inversion Hw; subst; assumption end);
+       try (match goal with Ha : acked st = true |- _ => destruct (I4 Ha) as [E F]; try rewrite P in F; cbn in F; try contradiction; auto end);
+       try (apply I4b; try rewrite P; reflexivity);
+       try (unfold sends_bound in I9; try rewrite P in I9; cbn in I9; lia)).
   - (* EWake *)
     destruct (ph st) as [|g s|g|] eqn:P; try discriminate.
-    destruct (Nat.ltb g (cur_gen st)); try discriminate. inversion H; subst; clear H.
-    fin I1 I2 I3 I4 I4b I5 I6 I7 I8 P.
+    destruct (Nat.ltb g (cur_gen st)) eqn:W; try discriminate. inversion H; subst; clear H.
+    apply Nat.ltb_lt in W.
+    eapply (own_step_inv st _ _ _ _ _ I); [reflexivity|..]; cbn; intros; try discriminate; try congruence.
+    + destruct (I4 H) as [_ F]; try rewrite P in F; cbn in F; contradiction.
+    + unfold sends_bound in I9; try rewrite P in I9; cbn in I9. lia.
   - (* EWakeClosed *)
     destruct (ph st) as [|g s|g|] eqn:P; try discriminate.
+    assert (G : g <= cur_gen st) by (apply I3; try rewrite P; reflexivity).
     destruct (closed st) eqn:C; try discriminate. inversion H; subst; clear H.
-    fin I1 I2 I3 I4 I4b I5 I6 I7 I8 P.
+    eapply (own_step_inv st _ _ _ _ _ I); [reflexivity|..]; cbn; intros; try discriminate; try congruence.
+    + destruct (I4 H) as [_ F]; try rewrite P in F; cbn in F; contradiction.
+    + unfold sends_bound in I9; try rewrite P in I9; cbn in I9. lia.
   - (* EWakeCtx *)
     destruct (ph st) as [|g s|g|] eqn:P; try discriminate;
+      assert (G : g <= cur_gen st) by (apply I3; try rewrite P; reflexivity);
       destruct (cancelled st) eqn:C; try discriminate; inversion H; subst; clear H;
-      fin I1 I2 I3 I4 I4b I5 I6 I7 I8 P.
+      (eapply (own_step_inv st _ _ _ _ _ I); [reflexivity|..]; cbn; intros; try discriminate; try congruence;
+       try (match goal with Ha : acked st = true |- _ => destruct (I4 Ha) as [E F]; try rewrite P in F; cbn in F; split; auto; destruct s; cbn in F; try contradiction; auto end);
+       try (match goal with Ha : acked st = true |- _ => destruct (I4 Ha) as [E F]; try rewrite P in F; cbn in F; contradiction end);
+       try (unfold sends_bound in I9; try rewrite P in I9; cbn in I9; destruct s; lia);
+       try (unfold sends_bound in I9; try rewrite P in I9; cbn in I9; lia)).
   - (* EKill *)
-    destruct (existsb (Nat.eqb g) (dead st) || negb (Nat.leb g (cur_gen st))) eqn:D; try discriminate.
+    destruct (unusable st g || negb (Nat.leb g (cur_gen st))) eqn:D; try discriminate.
     apply orb_false_iff in D; destruct D as [D1 D2]. apply negb_false_iff, Nat.leb_le in D2.
-    assert (E : st' = mkSt (ph st) (cur_gen st) (g :: dead st) (closed st) (cancelled st) (nsends st) (acked st) (sends_at_ack st))
+    unfold unusable in D1. apply orb_false_iff in D1; destruct D1 as [D1 D1p].
+    assert (E : st' = mkSt (ph st) (cur_gen st) (g :: dead st) (closed st) (cancelled st) (nsends st) (acked st) (sends_at_ack st) (paused st))
       by (destruct (ph st); inversion H; reflexivity).
-    subst st'. constructor; cbn; intros; auto.
+    subst st'. unfold is_dead in *. constructor; cbn; intros; auto.
     + apply existsb_cons_true in H0. destruct H0 as [->|H0]; auto.
-    + apply existsb_cons_true. right. apply I2; auto.
-    + apply existsb_cons_true. right. apply I8; auto.
+    + apply existsb_cons_true. right. auto.
+    + apply existsb_cons_true. right. auto.
+    + rewrite H0 in D1p. cbn in D1p. apply Nat.eqb_neq in D1p.
+      destruct (Nat.eqb_spec (cur_gen st) g); [congruence|]. cbn. apply I2b; exact H0.
+    + apply existsb_cons_true. right. auto.
   - (* EReplace *)
-    destruct (existsb (Nat.eqb (cur_gen st)) (dead st) && negb (closed st)) eqn:D; try discriminate.
+    destruct (is_dead st (cur_gen st) && negb (closed st)) eqn:D; try discriminate.
     apply andb_true_iff in D; destruct D as [D1 D2]. apply negb_true_iff in D2.
-    assert (E : st' = mkSt (ph st) (S (cur_gen st)) (dead st) (closed st) (cancelled st) (nsends st) (acked st) (sends_at_ack st))
+    assert (E : st' = mkSt (ph st) (S (cur_gen st)) (dead st) (closed st) (cancelled st) (nsends st) (acked st) (sends_at_ack st) true)
       by (destruct (ph st); inversion H; reflexivity).
-    subst st'. constructor; cbn; intros; auto; try congruence;
-      try (match goal with H0 : _ |- _ <= S _ => first [apply I1 in H0|apply I3 in H0]; lia end).
+    subst st'. unfold is_dead in *. constructor; cbn; intros; auto; try congruence.
+    all: try (match goal with H0 : ?g < S _ |- _ => assert (g < cur_gen st \/ g = cur_gen st) as [L| ->] by lia; auto end).
+    all: try (destruct (existsb (Nat.eqb (S (cur_gen st))) (dead st)) eqn:X; auto; apply I1 in X; lia).
+    all: try (match goal with H0 : gen_of _ = Some _ |- _ => apply I3 in H0; lia end).
+    all: try (match goal with H0 : existsb _ _ = true |- _ <= S _ => apply I1 in H0; lia end).
+    all: try (unfold sends_bound in *; cbn in *; destruct (ph st) as [|? []|?|]; lia).
+  - (* EStart *)
+    destruct (paused st) eqn:Pa; try discriminate.
+    assert (E : st' = mkSt (ph st) (cur_gen st) (if closed st then cur_gen st :: dead st else dead st) (closed st) (cancelled st) (nsends st) (acked st) (sends_at_ack st) false)
+      by (destruct (ph st); inversion H; reflexivity).
+    subst st'. unfold is_dead in *. constructor; cbn; intros; auto; try discriminate.
+    + destruct (closed st); auto. apply existsb_cons_true in H0. destruct H0 as [->|H0]; auto.
+    + destruct (closed st); auto. apply existsb_cons_true. right; auto.
+    + rewrite H0. apply existsb_cons_true. left; reflexivity.
+    + destruct (closed st); auto. apply existsb_cons_true. right; auto.
   - (* EClose *)
-    assert (E : st' = mkSt (ph st) (cur_gen st) (seq 0 (S (cur_gen st)) ++ dead st) true (cancelled st) (nsends st) (acked st) (sends_at_ack st))
+    assert (E : st' = mkSt (ph st) (cur_gen st) (seq 0 (if paused st then cur_gen st else S (cur_gen st)) ++ dead st) true (cancelled st) (nsends st) (acked st) (sends_at_ack st) (paused st))
       by (destruct (ph st); inversion H; reflexivity).
-    subst st'. constructor; cbn -[seq]; intros; auto.
-    + apply existsb_app_seq in H0. destruct H0 as [H0|H0]; [lia|apply I1; exact H0].
-    + apply existsb_app_seq. left; lia.
-    + apply existsb_app_seq. right. apply I8; auto.
+    subst st'. unfold is_dead in *. constructor; cbn -[seq]; intros; auto.
+    + apply existsb_app_seq in H0. destruct H0 as [H0|H0]; [destruct (paused st); lia|apply I1; exact H0].
+    + apply existsb_app_seq. right. auto.
+    + rewrite H1. apply existsb_app_seq. left; lia.
+    + rewrite H0. destruct (existsb (Nat.eqb (cur_gen st)) (seq 0 (cur_gen st) ++ dead st)) eqn:X; auto.
+      apply existsb_app_seq in X. destruct X as [X|X]; [lia|]. rewrite (I2b H0) in X. discriminate.
+    + apply existsb_app_seq. right. auto.
   - (* ECancel *)
-    assert (E : st' = mkSt (ph st) (cur_gen st) (dead st) (closed st) true (nsends st) (acked st) (sends_at_ack st))
+    assert (E : st' = mkSt (ph st) (cur_gen st) (dead st) (closed st) true (nsends st) (acked st) (sends_at_ack st) (paused st))
       by (destruct (ph st); inversion H; reflexivity).
-    subst st'. constructor; cbn; intros; auto.
+    subst st'. unfold is_dead in *. constructor; cbn; intros; auto.
 Qed.
 
 Lemma run_inv : forall es st st', Inv st -> run st es = Some st' -> Inv st'.
@@ -177,17 +242,19 @@ Qed.
 Lemma unacked_retried es st g s v :
   run init es = Some st -> ph st = OnConn g s -> s <> Acked -> g = cur_gen st ->
   is_dead st g = true -> closed st = false ->
-  exists st', run st [EObserveDead; EReplace; EWake; ESnapshot; ESend; EResult v] = Some st' /\
+  exists st', run st [EObserveDead; EReplace; EStart; EWake; ESnapshot; ESend; EResult v] = Some st' /\
               ph st' = Returned (RRes v) /\ nsends st' = S (nsends st).
 Proof.
   intros H P Hs -> D C. pose proof (reachable_inv _ _ H) as I.
   assert (ND : is_dead st (S (cur_gen st)) = false).
   { destruct (is_dead st (S (cur_gen st))) eqn:E; auto. apply (inv_dead_le _ I) in E. lia. }
   unfold is_dead in *.
-  destruct st as [p cg dd cl cn ns ak sa]; cbn [ph cur_gen dead closed nsends] in *. subst p cl.
+  destruct st as [p cg dd cl cn ns ak sa pa]; cbn [ph cur_gen dead closed nsends] in *. subst p cl.
   assert (L : Nat.ltb cg (S cg) = true) by (apply Nat.ltb_lt; lia).
+  assert (NE : Nat.eqb (S cg) cg = false) by (apply Nat.eqb_neq; lia).
   destruct s; try congruence;
-    repeat (progress (cbn -[Nat.ltb Nat.leb Nat.eqb existsb]; unfold is_dead, set_ph; rewrite ?D, ?L, ?ND));
+    repeat (progress (cbn -[Nat.ltb Nat.leb Nat.eqb existsb]; unfold is_dead, unusable, set_ph;
+                      cbn -[Nat.ltb Nat.leb Nat.eqb existsb]; rewrite ?D, ?L, ?ND, ?Nat.eqb_refl, ?andb_false_l, ?orb_false_l));
     eauto.
 Qed.
 
@@ -204,21 +271,61 @@ Proof.
     try congruence; inversion H; subst; cbn; auto.
 Qed.
 
-(* ---- after client close every pending and new invocation returns: from every reachable
-   closed state the invocation's own steps alone (at most 6, whichever ready case the select
-   picks) end in Returned ---- *)
-Lemma closed_returns es st pw :
-  run init es = Some st -> closed st = true -> returned (run_own pw 6 st) = true.
+(* ---- after client close.
+   FULL STATEMENT (the property's clause): from every reachable closed state the invocation's
+   own steps alone end in Returned.  It is REFUTED by the faithful model: a replacement
+   connection installed by the reconnect loop's notify callback is not running during the
+   backoff pause, an invocation woken by connChanged sits in its waitSession, and client close
+   does not reach it (invokeConn looks at the client context only after conn.Invoke returns;
+   backoff.RetryNotify's pause is not interrupted because tdsync.SyncBackoff hides
+   BackOffContext).  What holds: it returns by its own steps once the pause has ended (the
+   loop runs the connection with the cancelled context, it dies) -- i.e. within the
+   reconnect backoff interval, which is user-configurable. ---- *)
+Definition own_event (e : event) : bool :=
+  match e with
+  | ESnapshot | ESend | ESendLost | EObserveDead | EWake | EWakeClosed | EWakeCtx => true
+  | _ => false
+  end.
+Lemma own_step_frame st e st' :
+  own_event e = true -> step st e = Some st' ->
+  closed st' = closed st /\ paused st' = paused st /\ cur_gen st' = cur_gen st /\ dead st' = dead st.
 Proof.
-  intros H C. pose proof (reachable_inv _ _ H) as I.
-  assert (Dall : forall g, g <= cur_gen st -> existsb (Nat.eqb g) (dead st) = true) by (apply (inv_closed_dead _ I C)).
+  intros O H. destruct e; try discriminate; cbn -[Nat.ltb] in H;
+    destruct (ph st) as [|g s|g|r]; try discriminate; try (destruct s; try discriminate);
+    repeat match type of H with (if ?c then _ else _) = _ => destruct c eqn:?; try discriminate end;
+    inversion H; subst; cbn; auto.
+Qed.
+Lemma own_next_own pw st e : own_next pw st = Some e -> own_event e = true.
+Proof.
+  unfold own_next. destruct (ph st); try discriminate; try (intros H; inversion H; reflexivity).
+  destruct (pw && Nat.ltb g (cur_gen st)); intros H; inversion H; reflexivity.
+Qed.
+Lemma run_own_frame pw : forall n st, Inv st ->
+  Inv (run_own pw n st) /\ closed (run_own pw n st) = closed st /\ paused (run_own pw n st) = paused st.
+Proof.
+  induction n as [|n IH]; intros st I; cbn; auto.
+  destruct (own_next pw st) as [e|] eqn:E; auto.
+  destruct (step st e) as [st'|] eqn:S; auto.
+  destruct (own_step_frame _ _ _ (own_next_own _ _ _ E) S) as [C [P _]].
+  destruct (IH st' (step_inv _ _ _ I S)) as [I' [C' P']]. rewrite C', P', C, P. auto.
+Qed.
+
+Ltac simp := repeat (progress (cbn -[Nat.ltb Nat.leb Nat.eqb existsb andb]; unfold own_next, is_dead, set_ph;
+                               cbn -[Nat.ltb Nat.leb Nat.eqb existsb andb];
+                               repeat match goal with Hb : @eq bool _ _ |- _ => progress rewrite Hb end;
+                               rewrite ?Nat.ltb_irrefl, ?andb_false_r, ?andb_true_r, ?andb_false_l, ?andb_true_l)).
+
+Lemma closed_unpaused_returns st pw :
+  Inv st -> closed st = true -> paused st = false -> returned (run_own pw 6 st) = true.
+Proof.
+  intros I C Pa.
+  assert (Dall : forall g, g <= cur_gen st -> existsb (Nat.eqb g) (dead st) = true).
+  { intros g L. assert (g < cur_gen st \/ g = cur_gen st) as [L'| ->] by lia.
+    - apply (inv_old_dead _ I); exact L'.
+    - apply (inv_closed_cur _ I C Pa). }
   assert (G : forall g, gen_of (ph st) = Some g -> g <= cur_gen st) by apply (inv_gen _ I).
-  clear H I. destruct st as [p cg dd cl cn ns ak sa]; cbn [ph cur_gen dead closed] in *. subst cl.
+  clear I. destruct st as [p cg dd cl cn ns ak sa pa]; cbn [ph cur_gen dead closed paused] in *. subst cl pa.
   assert (Dcur := Dall cg (le_n _)).
-  Ltac simp := repeat (progress (cbn -[Nat.ltb Nat.leb Nat.eqb existsb andb]; unfold own_next, is_dead, set_ph;
-                                 cbn -[Nat.ltb Nat.leb Nat.eqb existsb andb];
-                                 repeat match goal with Hb : @eq bool _ _ |- _ => progress rewrite Hb end;
-                                 rewrite ?Nat.ltb_irrefl, ?andb_false_r, ?andb_true_r, ?andb_false_l, ?andb_true_l)).
   destruct p as [|g s|g|r].
   - simp. reflexivity.
   - assert (Dg := Dall g (G g eq_refl)).
@@ -226,6 +333,36 @@ Proof.
   - destruct pw, (g <? cg) eqn:W; simp; reflexivity.
   - reflexivity.
 Qed.
+
+Lemma closed_returns_partial es st pw :
+  run init es = Some st -> closed st = true ->
+  returned (run_own pw 6 st) = true \/
+  (paused (run_own pw 6 st) = true /\
+   exists st2, step (run_own pw 6 st) EStart = Some st2 /\ returned (run_own pw 6 st2) = true).
+Proof.
+  intros H C. pose proof (reachable_inv _ _ H) as I.
+  destruct (run_own_frame pw 6 st I) as [I1 [C1 P1]].
+  destruct (returned (run_own pw 6 st)) eqn:R; [left; reflexivity|right].
+  destruct (paused st) eqn:Pa.
+  - split; [rewrite P1; reflexivity|].
+    remember (run_own pw 6 st) as st1 eqn:E1. clear E1.
+    destruct st1 as [p cg dd cl cn ns ak sa pa]; cbn [closed paused] in C1, P1. rewrite C in C1. subst cl pa.
+    exists (mkSt p cg (cg :: dd) true cn ns ak sa false); split; [destruct p; reflexivity|].
+    apply closed_unpaused_returns; [|reflexivity|reflexivity].
+    apply (step_inv _ EStart _ I1). destruct p; reflexivity.
+  - rewrite (closed_unpaused_returns st pw I C Pa) in R. discriminate.
+Qed.
+
+(* the witness of the refutation: request sent, connection dies, replacement installed (pause),
+   invocation woken and on the not-yet-running replacement, client closed *)
+Definition closed_stuck_trace : list event :=
+  [ESnapshot; ESend; EKill 0; EObserveDead; EReplace; EWake; ESnapshot; EClose].
+Lemma closed_returns_refuted :
+  exists st, run init closed_stuck_trace = Some st /\ closed st = true /\
+             returned (run_own true 6 st) = false /\ returned (run_own false 6 st) = false /\
+             step st ESnapshot = None /\ step st ESend = None /\ step st ESendLost = None /\
+             step st EObserveDead = None /\ step st EWake = None /\ step st EWakeClosed = None /\ step st EWakeCtx = None.
+Proof. eexists. vm_compute. repeat split; reflexivity. Qed.
 
 (* ---- the snapshot (connection, its "replaced" channel) is atomic: an invocation only ever
    waits on the channel of a connection that is dead, so the reconnect loop -- which
@@ -258,10 +395,56 @@ Qed.
    By [waits_only_on_dead] no such state is reachable with the atomic snapshot. *)
 Lemma split_snapshot_state_is_stuck st :
   ph st = Waiting (cur_gen st) -> is_dead st (cur_gen st) = false ->
-  closed st = false -> cancelled st = false ->
+  closed st = false -> cancelled st = false -> paused st = false ->
   step st ESnapshot = None /\ step st ESend = None /\ step st ESendLost = None /\ step st EAck = None /\
   (forall v, step st (EResult v) = None) /\ step st EObserveDead = None /\ step st EWake = None /\
-  step st EWakeClosed = None /\ step st EWakeCtx = None /\ step st EReplace = None.
+  step st EWakeClosed = None /\ step st EWakeCtx = None /\ step st EReplace = None /\ step st EStart = None.
 Proof.
-  intros P D C X. cbn -[Nat.ltb]. rewrite P, D, C, X, Nat.ltb_irrefl. cbn. repeat split; reflexivity.
+  intros P D C X Pa. cbn -[Nat.ltb]. rewrite P, D, C, X, Pa, Nat.ltb_irrefl. cbn. repeat split; reflexivity.
 Qed.
+
+(* ---- universal bounds: for ALL event lists ---- *)
+(* at most one execution per connection generation: re-sends only happen on replacements *)
+Lemma sends_bounded es st : run init es = Some st -> nsends st <= S (cur_gen st).
+Proof.
+  intros H. pose proof (reachable_inv _ _ H) as I. pose proof (inv_sends _ I) as B.
+  pose proof (inv_gen _ I) as G. unfold sends_bound in B.
+  destruct (ph st) as [|g s|g|r] eqn:P; try lia.
+  - specialize (G g eq_refl). destruct s; lia.
+  - specialize (G g eq_refl). lia.
+Qed.
+(* with the client open and the caller's context live, whatever the faults and the schedule,
+   the only things an invocation can return are the result or -- after an ack -- the
+   connection-lost error *)
+Lemma open_returns_result_or_acked_error es st r :
+  run init es = Some st -> ph st = Returned r -> closed st = false -> cancelled st = false ->
+  (exists v, r = RRes v) \/ (r = RErrAcked /\ acked st = true).
+Proof.
+  intros H P C X. pose proof (results_justified _ _ _ H P) as J.
+  destruct r; [left; eauto|right; auto|congruence|congruence].
+Qed.
+
+(* ---- the outcome classes are the rpc engine's ----
+   Model/Rpc.v (C24-C26) projects what rpc.Engine.Do returns into [Rpc.retv]; the decision
+   "retry on a new connection" is telegram/invoke.go errRetryableOnNewConn, regenerated from
+   the source into Gen/RpcClass.v ([Rpc.retryable_tg]).  What this model does when the
+   connection under an invocation died is exactly that decision applied to the class C26
+   proves Do returns: ErrEngineClosed-class (retryable) when the request was not acknowledged,
+   the acknowledged-close class (not retryable) otherwise; a delivered result always wins
+   (C26 after the fixes df56df347 and 459a12526: Do prefers an answer that was delivered or
+   being handled over ErrEngineClosed) -- which is why [EResult] is atomic here. *)
+Definition retv_at_death (s : cstate) : TD.Model.Rpc.retv :=
+  match s with
+  | Acked => TD.Model.Rpc.RClosedAcked
+  | _ => TD.Model.Rpc.RClosedRetryable
+  end.
+Lemma observe_dead_is_rpc_class st g s st' :
+  ph st = OnConn g s -> step st EObserveDead = Some st' ->
+  (TD.Model.Rpc.retryable_tg (retv_at_death s) = true /\ ph st' = Waiting g) \/
+  (TD.Model.Rpc.retryable_tg (retv_at_death s) = false /\ ph st' = Returned RErrAcked).
+Proof.
+  intros P H. cbn in H. rewrite P in H. destruct (is_dead st g); try discriminate.
+  destruct s; inversion H; subst; cbn; [left|left|left|right]; split; reflexivity.
+Qed.
+Lemma result_class_not_retryable : TD.Model.Rpc.retryable_tg TD.Model.Rpc.RNil = false.
+Proof. reflexivity. Qed.
